@@ -513,7 +513,7 @@ func runC19World(r *Run, seed int64) {
 	}
 	// concurrent entry points
 	var idMu sync.Mutex
-	var timerHits atomic.Int32
+	var timerHits, csvCalls atomic.Int32
 	pickID := func() *swap.SwapId {
 		idMu.Lock()
 		defer idMu.Unlock()
@@ -530,9 +530,25 @@ func runC19World(r *Run, seed int64) {
 	bg(func() { // blocks on both chains -> real watcher callbacks
 		w.BTC.Mine(1)
 		w.LBTC.Mine(1)
-		if deep && blockRounds.Add(1) == 12 {
+		if n := blockRounds.Add(1); deep && n == 12 {
 			w.BTC.Mine(int(ref.CSV("btc", 7)) + 3)
 			w.LBTC.Mine(int(ref.CSV("lbtc", 7)) + 3)
+			// ... and at that moment the takers cancel / send an unusable coop_close for the swaps that are under way:
+			// csv-passed callback and message handler of one swap at the same time
+			idMu.Lock()
+			cp := append([]string(nil), ids...)
+			idMu.Unlock()
+			for i, s := range cp {
+				if id, err := swap.ParseSwapIdFromString(s); err == nil {
+					if i%2 == 0 {
+						w.InjectMsg(b.ID, "alice", ref.MsgCancel, mustJSON(&swap.CancelMessage{SwapId: id, Message: "now"}))
+						w.InjectMsg(a.ID, "bob", ref.MsgCancel, mustJSON(&swap.CancelMessage{SwapId: id, Message: "now"}))
+					} else {
+						w.InjectMsg(b.ID, "alice", ref.MsgCoopClose, mustJSON(&swap.CoopCloseMessage{SwapId: id, Message: "x", Privkey: "zz"}))
+						w.InjectMsg(a.ID, "bob", ref.MsgCoopClose, mustJSON(&swap.CoopCloseMessage{SwapId: id, Message: "x", Privkey: "zz"}))
+					}
+				}
+			}
 		}
 		ra.notify()
 		rb.notify()
@@ -619,12 +635,29 @@ func runC19World(r *Run, seed int64) {
 				idMu.Lock()
 				ids = append(ids, sm.SwapId.String())
 				idMu.Unlock()
+				if lr(2) == 0 && blockRounds.Load() > 24 && timerHits.Add(1) <= 6 {
+					// ... and for the swap just started (its negotiation timer is armed, it is certainly active): the
+					// timer becomes due while the peer's cancel for it is on its way
+					time.Sleep(time.Millisecond)
+					w.Advance(11 * time.Minute)
+					w.InjectMsg(peer.ID, ini.Name, ref.MsgCancel, mustJSON(&swap.CancelMessage{SwapId: sm.SwapId, Message: "late"}))
+				}
+			}
+		case 4:
+			// the watcher entry point of a swap (csv-passed callback, as the watchers call it) at the moment a message
+			// for the same swap is handled
+			if id := pickID(); id != nil && csvCalls.Add(1) <= 12 {
+				if inc := a.Inc(); inc != nil && inc.Svc != nil {
+					go inc.Call(func() { inc.Svc.OnCsvPassed(id.String()) })
+				}
+				w.InjectMsg(b.ID, "alice", ref.MsgCancel, mustJSON(&swap.CancelMessage{SwapId: id, Message: "x"}))
 			}
 		case 3:
 			// the negotiation timeout of a swap becomes due at the moment its counterparty's cancel (or an invalid
 			// message) arrives: timer entry point and message entry point of one swap, delivered by different pumps
 			// (a few times per world: every firing ends all swaps that are still negotiating)
-			if id := pickID(); id != nil && timerHits.Add(1) <= 4 {
+			// (in the second part of a world: the first part runs its swaps without mass time-outs)
+			if id := pickID(); id != nil && blockRounds.Load() > 24 && timerHits.Add(1) <= 6 {
 				w.Advance(11 * time.Minute)
 				if lr(2) == 0 {
 					w.InjectMsg(b.ID, "alice", ref.MsgCancel, mustJSON(&swap.CancelMessage{SwapId: id, Message: "late"}))
